@@ -4,7 +4,7 @@
 #include "contracts/byte_buf.h"
 #include "source/byte_buf.c"
 
-#define GHOSTS() do { g_on = true; g_k = nondet_size_t(); g_old = nondet_u8(); g_j = nondet_size_t(); g_src = nondet_u8(); } while (0)
+#define GHOSTS() do { GHOST_RESET(); g_on = true; g_k = nondet_size_t(); g_old = nondet_u8(); g_j = nondet_size_t(); g_src = nondet_u8(); } while (0)
 
 void h_append(void) {
     struct aws_byte_buf *to; const struct aws_byte_cursor *from;
@@ -46,17 +46,17 @@ H_WRITE_X(write_float_be64, double)
 H_WRITE_X(write_from_whole_cursor, struct aws_byte_cursor)
 H_WRITE_X(write_from_whole_buffer, struct aws_byte_buf)
 
-void h_advance(void) {
+void h_advance(void) { GHOST_RESET();
     struct aws_byte_cursor *cursor; size_t len;
     struct aws_byte_cursor r = aws_byte_cursor_advance(cursor, len);
     if (r.len > 0) CANARY("advanced"); else if (len > 0) CANARY("refused"); 
 }
-void h_advance_nospec(void) {
+void h_advance_nospec(void) { GHOST_RESET();
     struct aws_byte_cursor *cursor; size_t len;
     struct aws_byte_cursor r = aws_byte_cursor_advance_nospec(cursor, len);
     if (r.len > 0) CANARY("advanced"); else if (len > 0) CANARY("refused"); 
 }
-void h_nospec_mask(void) {
+void h_nospec_mask(void) { GHOST_RESET();
     size_t i, b;
     size_t m = aws_nospec_mask(i, b);
     if (m) CANARY("in range"); else CANARY("out of range");
@@ -77,10 +77,115 @@ H_READ_X(read_float_be32, float)
 H_READ_X(read_float_be64, double)
 
 /* concrete corner excluded from the write_u8_n contract: empty buffer without storage, count 0 */
-void h_write_u8_n_empty(void) {
+void h_write_u8_n_empty(void) { GHOST_RESET();
     struct aws_byte_buf b = {0};
     uint8_t c = nondet_u8();
     bool r = aws_byte_buf_write_u8_n(&b, c, 0);
     __CPROVER_assert(r && b.len == 0 && b.capacity == 0 && b.buffer == NULL, "write_u8_n(empty, c, 0) succeeds and changes nothing");
     CANARY("reached");
+}
+
+/* ---------------- init / clean-up / growing operations ---------------- */
+void h_init(void) { GHOST_RESET();
+    struct aws_byte_buf *buf; struct aws_allocator *a; size_t cap;
+    int r = aws_byte_buf_init(buf, a, cap);
+    if (cap == 0) CANARY("zero capacity"); else CANARY("allocated");
+}
+void h_init_copy(void) {
+    struct aws_byte_buf *dest; struct aws_allocator *a; const struct aws_byte_buf *src;
+    GHOSTS();
+    int r = aws_byte_buf_init_copy(dest, a, src);
+    CANARY("returned");
+}
+void h_init_copy_from_cursor(void) {
+    struct aws_byte_buf *dest; struct aws_allocator *a; struct aws_byte_cursor src;
+    GHOSTS();
+    int r = aws_byte_buf_init_copy_from_cursor(dest, a, src);
+    CANARY("returned");
+}
+void h_secure_zero(void) { GHOST_RESET();
+    struct aws_byte_buf *buf; g_rz = nondet_size_t();
+    aws_byte_buf_secure_zero(buf);
+    CANARY("returned");
+}
+void h_reset(void) {
+    struct aws_byte_buf *buf; bool z; GHOSTS(); g_rz = nondet_size_t();
+    aws_byte_buf_reset(buf, z);
+    if (z) CANARY("zeroing reset"); else CANARY("plain reset");
+}
+void h_clean_up(void) { GHOST_RESET();
+    struct aws_byte_buf *buf;
+    aws_byte_buf_clean_up(buf);
+    CANARY("cleaned");
+}
+void h_clean_up_secure(void) { GHOST_RESET();
+    struct aws_byte_buf *buf; g_zero_on = true; g_rz = nondet_size_t(); g_rsize = nondet_size_t();
+    aws_byte_buf_clean_up_secure(buf);
+    CANARY("cleaned");
+}
+void h_s_append_dynamic(void) {
+    struct aws_byte_buf *to; const struct aws_byte_cursor *from; bool clear;
+    GHOSTS(); g_zero_on = clear; g_rz = nondet_size_t(); g_rsize = nondet_size_t();
+    size_t old_cap_probe;
+    int r = s_aws_byte_buf_append_dynamic(to, from, clear);
+    
+#ifdef VERIF_APPEND_DYNAMIC_HUGE
+    if (r != 0) CANARY("overflow refused");
+#else
+    if (r == 0 && clear) CANARY("appended secure"); else if (r == 0) CANARY("appended");
+#endif
+
+}
+void h_append_dynamic(void) {
+    struct aws_byte_buf *to; const struct aws_byte_cursor *from;
+    GHOSTS(); g_expect_secure_on = true; g_expect_secure = false;
+    int r = aws_byte_buf_append_dynamic(to, from);
+#ifdef VERIF_APPEND_DYNAMIC_HUGE
+    if (r != 0) CANARY("refused");
+#else
+    if (r == 0) CANARY("appended");
+#endif
+}
+void h_append_dynamic_secure(void) {
+    struct aws_byte_buf *to; const struct aws_byte_cursor *from;
+    GHOSTS(); g_expect_secure_on = true; g_expect_secure = true;
+    int r = aws_byte_buf_append_dynamic_secure(to, from);
+#ifdef VERIF_APPEND_DYNAMIC_HUGE
+    if (r != 0) CANARY("refused");
+#else
+    if (r == 0) CANARY("appended");
+#endif
+}
+void h_s_append_byte_dynamic(void) {
+    struct aws_byte_buf *b; uint8_t v; bool clear;
+    GHOSTS(); g_expect_secure_on = true; g_expect_secure = clear;
+    int r = s_aws_byte_buf_append_byte_dynamic(b, v, clear);
+    if (r == 0) CANARY("appended"); /* refusal needs len == SIZE_MAX: unreachable with backed storage */
+}
+void h_append_byte_dynamic(void) {
+    struct aws_byte_buf *b; uint8_t v;
+    GHOSTS(); g_expect_secure_on = true; g_expect_secure = false;
+    int r = aws_byte_buf_append_byte_dynamic(b, v);
+    if (r == 0) CANARY("appended"); /* refusal needs len == SIZE_MAX: unreachable with backed storage */
+}
+void h_append_byte_dynamic_secure(void) {
+    struct aws_byte_buf *b; uint8_t v;
+    GHOSTS(); g_expect_secure_on = true; g_expect_secure = true;
+    int r = aws_byte_buf_append_byte_dynamic_secure(b, v);
+    if (r == 0) CANARY("appended"); /* refusal needs len == SIZE_MAX: unreachable with backed storage */
+}
+#define H_RESERVE(name) void h_##name(void) { struct aws_byte_buf *b; size_t n; GHOSTS(); size_t c0; int r = aws_byte_buf_##name(b, n); if (r != 0) CANARY("refused"); else CANARY("ok"); }
+void h_reserve(void) { struct aws_byte_buf *b; size_t n; GHOSTS(); int r = aws_byte_buf_reserve(b, n); CANARY("returned"); }
+void h_reserve_smart(void) { struct aws_byte_buf *b; size_t n; GHOSTS(); int r = aws_byte_buf_reserve_smart(b, n); CANARY("returned"); }
+H_RESERVE(reserve_relative)
+H_RESERVE(reserve_smart_relative)
+void h_buf_advance(void) {
+    struct aws_byte_buf *b; struct aws_byte_buf *out; size_t n;
+    bool r = aws_byte_buf_advance(b, out, n);
+    if (r) CANARY("advanced"); else CANARY("refused");
+}
+void h_append_and_update(void) {
+    struct aws_byte_buf *to; struct aws_byte_cursor *from; GHOSTS();
+    int r = aws_byte_buf_append_and_update(to, from);
+    if (r == 0) CANARY("ok"); else CANARY("refused");
 }
